@@ -183,6 +183,8 @@ pub enum Op {
   ObserveOn,
   SubscribeOn,
   Debounce(u64),
+  /// debounce with a window in microseconds (sub-millisecond windows)
+  DebounceUs(u64),
   ThrottleTime(u64, Edge),
   /// duration = base + (item mod 3) ms
   Throttle(u64, Edge),
@@ -261,7 +263,7 @@ impl Op {
       Op::DelaySubscriptionAt(_) => "delay_subscription_at",
       Op::ObserveOn => "observe_on",
       Op::SubscribeOn => "subscribe_on",
-      Op::Debounce(_) => "debounce",
+      Op::Debounce(_) | Op::DebounceUs(_) => "debounce",
       Op::ThrottleTime(..) => "throttle_time",
       Op::Throttle(..) => "throttle",
       Op::BufferWithTime(_) => "buffer_with_time",
@@ -303,6 +305,7 @@ impl Op {
         | Op::ObserveOn
         | Op::SubscribeOn
         | Op::Debounce(_)
+        | Op::DebounceUs(_)
         | Op::ThrottleTime(..)
         | Op::Throttle(..)
         | Op::BufferWithTime(_)
